@@ -179,6 +179,8 @@ def check(spec, ctx):
             raise res.exc
         if isinstance(res.exc, (IOError, OSError)):
             raise Reject(str(res.exc)[:200])
+        if gc.refused_outside_box(res.exc, spec):
+            raise Reject("start structure with coordinates beyond its box")
         raise crash("gen_coords:crash", res.exc)
     if spec["opts"].get("split"):
         if res.gro_text is None or isinstance(res.gro, Exception) or len(res.gro["atoms"]) != len(all_atoms):
